@@ -130,7 +130,8 @@ class UDPMessageDeserializer:
         msg.name = current_template.name
 
         # extra field, see note regarding msg.offset
-        msg.raw_extra = reader.read_bytes(msg.offset)
+        # Zerocoded headers get expanded into a bytearray, always hand out plain bytes
+        msg.raw_extra = bytes(reader.read_bytes(msg.offset))
 
         # Useful for snipping the template contents out of a message and comparing
         msg.body_boundaries = (PacketLayout.PACKET_ID_LENGTH, msg_size)
